@@ -39,7 +39,10 @@ RULE = (
     "in-place histories (the same ndarrays shifted / permuted / restored between calls) - every return judged against its own arguments "
     "and the constructor parameters compared before/after each call; re-configuration histories (built with P1, optionally used, then "
     "1..3 of spacing / shape<->spacing / region None<->given / adjust / center_coordinates / drop_coords / reduction changed by "
-    "set_params, attribute assignment or clone().set_params, then used: judged with the parameters in force at call time). Non-trivial = at least 2 occupied blocks, a block with >= 2 members whose data differ, and an empty block "
+    "set_params, attribute assignment or clone().set_params, then used: judged with the parameters in force at call time); equivalent spellings on integer-friendly clouds "
+    "(spacing as Python int/float, numpy integer/floating, 0-d array; pairs and regions as tuple/list/ndarray of floats or integers; "
+    "shape as tuple/list/ndarray of numpy ints; flags as np.bool_ and 1/0; the reference converts with float()/int()/bool()) and "
+    "falsy-but-valid values (an extra coordinate that is 0 everywhere, weights exactly 1, a data component of zeros). Non-trivial = at least 2 occupied blocks, a block with >= 2 members whose data differ, and an empty block "
     "present; distinct = hash of (coordinates, data, weights, configuration)."
 )
 ASSUMPTIONS = [
@@ -54,15 +57,15 @@ ASSUMPTIONS = [
 ]
 FLOORS = {
     "quick": {
-        "eval:filter_layout": 1000, "eval:labels_vs_reference_geometry": 1000, "eval:params_unchanged_by_filter": 1000,
-        "eval:block_value": 13800, "eval:block_coordinate": 19700, "eval:sum_conserved": 62, "eval:weights_refused": 3,
-        "distinct_nontrivial": 580, "class:weights:given": 440, "class:series_input_with_custom_index": 330,
-        "class:center_coordinates:True": 480, "class:drop_coords:False": 410, "class:empty_blocks:present": 780,
-        "class:data_dtype_present:int16": 110, "class:data_dtype_present:int32": 110, "class:data_dtype_present:int64": 100,
-        "class:data_dtype_present:float32": 190, "class:mixed_data_dtypes:integer_then_float64": 38,
-        "class:mixed_data_dtypes:float64_then_integer": 31, "class:mixed_data_dtypes:float32_then_float64": 34,
-        "class:mixed_data_dtypes:float64_then_float32": 38, "class:weights_dtype_present:int32": 73,
-        "class:weights_dtype_present:int64": 69, "class:history:reuse_calls": 130, "class:history:reuse_calls:region_none": 95,
+        "eval:filter_layout": 1100, "eval:labels_vs_reference_geometry": 1100, "eval:params_unchanged_by_filter": 1100,
+        "eval:block_value": 14900, "eval:block_coordinate": 21700, "eval:sum_conserved": 64, "eval:weights_refused": 3,
+        "distinct_nontrivial": 590, "class:weights:given": 460, "class:series_input_with_custom_index": 320,
+        "class:center_coordinates:True": 530, "class:drop_coords:False": 480, "class:empty_blocks:present": 800,
+        "class:data_dtype_present:int16": 110, "class:data_dtype_present:int32": 110, "class:data_dtype_present:int64": 110,
+        "class:data_dtype_present:float32": 190, "class:mixed_data_dtypes:integer_then_float64": 40,
+        "class:mixed_data_dtypes:float64_then_integer": 34, "class:mixed_data_dtypes:float32_then_float64": 34,
+        "class:mixed_data_dtypes:float64_then_float32": 37, "class:weights_dtype_present:int32": 76,
+        "class:weights_dtype_present:int64": 79, "class:history:reuse_calls": 130, "class:history:reuse_calls:region_none": 95,
         "class:history:reuse_calls:region_given": 11, "class:history:reuse_calls:center_coordinates": 56,
         "class:history:inplace_calls": 67, "class:history:inplace_calls:region_none": 41,
         "class:history:clone_after_filter_calls": 38, "class:reconfigured_calls": 48, "class:reconfigured:how:set_params": 12,
@@ -71,17 +74,27 @@ FLOORS = {
         "class:reconfigured:param:shape_vs_spacing": 10, "class:reconfigured:param:region": 10,
         "class:reconfigured:param:adjust": 9, "class:reconfigured:param:center_coordinates": 10,
         "class:reconfigured:param:drop_coords": 10, "class:reconfigured:param:reduction": 11,
+        "class:spelling_group:spacing:scalar_as_python_int": 8, "class:spelling_group:spacing:scalar_as_numpy_integer": 8,
+        "class:spelling_group:spacing:scalar_as_numpy_floating": 9, "class:spelling_group:spacing:scalar_as_0d_array": 9,
+        "class:spelling_group:spacing:as_list": 6, "class:spelling_group:spacing:as_ndarray": 8,
+        "class:spelling_group:spacing:elements_integers": 18, "class:spelling_group:shape:as_list": 4,
+        "class:spelling_group:shape:as_ndarray": 10, "class:spelling_group:shape:elements_numpy_scalars": 6,
+        "class:spelling_group:region:as_tuple": 190, "class:spelling_group:region:as_ndarray": 16,
+        "class:spelling_group:region:elements_integers": 37, "class:spelling_group:flag_as_int=True": 32,
+        "class:spelling_group:flag_as_int=False": 42, "class:spelling_group:flag_as_numpy_bool=True": 33,
+        "class:spelling_group:flag_as_numpy_bool=False": 38, "class:falsy:extra_coordinate_exactly_0_everywhere": 46,
+        "class:falsy:weights_exactly_1": 13, "class:falsy:data_component_exactly_0_everywhere": 14,
     },
     "thorough": {
-        "eval:filter_layout": 16100, "eval:labels_vs_reference_geometry": 16100, "eval:params_unchanged_by_filter": 16100,
-        "eval:block_value": 217200, "eval:block_coordinate": 311700, "eval:sum_conserved": 1000, "eval:weights_refused": 16,
-        "distinct_nontrivial": 8900, "class:weights:given": 7100, "class:series_input_with_custom_index": 5100,
-        "class:center_coordinates:True": 7400, "class:drop_coords:False": 6400, "class:empty_blocks:present": 11900,
-        "class:data_dtype_present:int16": 1800, "class:data_dtype_present:int32": 1800, "class:data_dtype_present:int64": 1800,
-        "class:data_dtype_present:float32": 3100, "class:mixed_data_dtypes:integer_then_float64": 620,
-        "class:mixed_data_dtypes:float64_then_integer": 620, "class:mixed_data_dtypes:float32_then_float64": 610,
-        "class:mixed_data_dtypes:float64_then_float32": 590, "class:weights_dtype_present:int32": 1200,
-        "class:weights_dtype_present:int64": 1100, "class:history:reuse_calls": 2000,
+        "eval:filter_layout": 16900, "eval:labels_vs_reference_geometry": 16900, "eval:params_unchanged_by_filter": 16900,
+        "eval:block_value": 232300, "eval:block_coordinate": 337800, "eval:sum_conserved": 1100, "eval:weights_refused": 16,
+        "distinct_nontrivial": 9200, "class:weights:given": 7400, "class:series_input_with_custom_index": 5200,
+        "class:center_coordinates:True": 8300, "class:drop_coords:False": 7500, "class:empty_blocks:present": 12300,
+        "class:data_dtype_present:int16": 1900, "class:data_dtype_present:int32": 1800, "class:data_dtype_present:int64": 1800,
+        "class:data_dtype_present:float32": 3200, "class:mixed_data_dtypes:integer_then_float64": 670,
+        "class:mixed_data_dtypes:float64_then_integer": 660, "class:mixed_data_dtypes:float32_then_float64": 650,
+        "class:mixed_data_dtypes:float64_then_float32": 620, "class:weights_dtype_present:int32": 1200,
+        "class:weights_dtype_present:int64": 1300, "class:history:reuse_calls": 2000,
         "class:history:reuse_calls:region_none": 1500, "class:history:reuse_calls:region_given": 390,
         "class:history:reuse_calls:center_coordinates": 1000, "class:history:inplace_calls": 1000,
         "class:history:inplace_calls:region_none": 760, "class:history:clone_after_filter_calls": 570,
@@ -91,7 +104,17 @@ FLOORS = {
         "class:reconfigured:param:spacing": 200, "class:reconfigured:param:shape_vs_spacing": 200,
         "class:reconfigured:param:region": 200, "class:reconfigured:param:adjust": 180,
         "class:reconfigured:param:center_coordinates": 190, "class:reconfigured:param:drop_coords": 190,
-        "class:reconfigured:param:reduction": 210,
+        "class:reconfigured:param:reduction": 210, "class:spelling_group:spacing:scalar_as_python_int": 150,
+        "class:spelling_group:spacing:scalar_as_numpy_integer": 160,
+        "class:spelling_group:spacing:scalar_as_numpy_floating": 170, "class:spelling_group:spacing:scalar_as_0d_array": 150,
+        "class:spelling_group:spacing:as_list": 140, "class:spelling_group:spacing:as_ndarray": 200,
+        "class:spelling_group:spacing:elements_integers": 340, "class:spelling_group:shape:as_list": 100,
+        "class:spelling_group:shape:as_ndarray": 180, "class:spelling_group:shape:elements_numpy_scalars": 100,
+        "class:spelling_group:region:as_tuple": 2900, "class:spelling_group:region:as_ndarray": 350,
+        "class:spelling_group:region:elements_integers": 570, "class:spelling_group:flag_as_int=True": 580,
+        "class:spelling_group:flag_as_int=False": 680, "class:spelling_group:flag_as_numpy_bool=True": 570,
+        "class:spelling_group:flag_as_numpy_bool=False": 700, "class:falsy:extra_coordinate_exactly_0_everywhere": 760,
+        "class:falsy:weights_exactly_1": 270, "class:falsy:data_component_exactly_0_everywhere": 280,
     },
 }
 JOBS = {"quick": 1, "thorough": 16}
@@ -101,8 +124,8 @@ CALLS_PER_CASE = 8
 
 def plan(tier):
     if tier == "quick":
-        return collections.OrderedDict(random=160, edges=36, series=42, tiny=10, refused=3, nested=8, reuse=24, inplace=14, reconfigure=30)
-    return collections.OrderedDict(random=2400, edges=540, series=640, tiny=120, refused=14, nested=100, reuse=360, inplace=210, reconfigure=450)
+        return collections.OrderedDict(random=140, edges=32, series=42, tiny=10, refused=3, nested=8, reuse=24, inplace=14, reconfigure=30, spellings=40)
+    return collections.OrderedDict(random=2100, edges=480, series=640, tiny=120, refused=14, nested=100, reuse=360, inplace=210, reconfigure=450, spellings=600)
 
 
 def value_range(values):
@@ -266,9 +289,12 @@ def _weights(rng, size, ncomp):
     return [blk.integer_weights(rng, size) if rng.random() < 0.2 else 10 ** rng.uniform(-3, 3, size) for _ in range(ncomp)]
 
 
-def _one_call(run, rng, verde, layout=None, weighted=None, edges=False, npoints=None, kind=None, reduction=None):
-    east, north = blk.make_points(rng, n=npoints, kind=kind)
-    kwargs = blk.make_blocks(rng, east, north, want_empty=rng.random() < 0.5)
+def _one_call(run, rng, verde, layout=None, weighted=None, edges=False, npoints=None, kind=None, reduction=None, spelled=False):
+    if spelled:  # integral spacings / region bounds, so that every argument can also be spelled with integers
+        east, north, kwargs = blk.integer_friendly(rng)
+    else:
+        east, north = blk.make_points(rng, n=npoints, kind=kind)
+        kwargs = blk.make_blocks(rng, east, north, want_empty=rng.random() < 0.5)
     if edges:
         if rng.random() < 0.15:  # extent/spacing exactly at a .5 tie: the number of blocks is either-way (C07)
             reg = kwargs.get("region") or [east.min(), east.max(), north.min(), north.max()]
@@ -293,6 +319,19 @@ def _one_call(run, rng, verde, layout=None, weighted=None, edges=False, npoints=
         kwargs["drop_coords"] = False
     elif rng.random() < 0.1:
         kwargs["drop_coords"] = False
+    if spelled:
+        # falsy-but-valid values: an extra coordinate that is 0 everywhere, weights that are exactly 1, a data component of zeros
+        if rng.random() < 0.4:
+            extras = [np.zeros(east.size)] + extras[1:]
+            n_extra = len(extras)
+            kwargs["drop_coords"] = False
+        if weighted and rng.random() < 0.35:
+            weights[int(rng.integers(0, ncomp))] = np.ones(east.size, dtype=str(rng.choice(["float64", "int64"])))
+        if rng.random() < 0.15:
+            data[int(rng.integers(0, ncomp))] = np.zeros(east.size)
+        kwargs.setdefault("center_coordinates", False)
+        kwargs.setdefault("drop_coords", True)
+        kwargs = blk.respell(rng, kwargs)
     if layout is None:
         layout = str(rng.choice(blk.LAYOUTS))
     coords = blk.wrap_all([east, north] + extras, layout, rng)
@@ -433,6 +472,11 @@ def _reconfigured(run, rng, verde):
 def run_case(run, tap, stream, index, rng):
     import verde
 
+    if stream == "spellings":
+        for _ in range(CALLS_PER_CASE):
+            info = _one_call(run, rng, verde, spelled=True, layout=str(rng.choice(["1d", "1d", "2d", "series", "readonly"])))
+        run.sample("equivalent_spellings", {k: info[k] for k in ("reduction", "kwargs", "layout", "weighted", "result_coordinates", "result_data")})
+        return
     if stream == "reconfigure":
         for _ in range(4):
             info = _reconfigured(run, rng, verde)
